@@ -1,14 +1,164 @@
 import SqlgrepModel.Model.Exec
 /-
-Executable SPECIFICATION of non-aggregate queries (properties C03 select level, C05, C07, C08):
-output = in input order, one row per qualifying (joined) row, projections evaluated on that row alone;
-DISTINCT = first occurrences; LIMIT n = first n rows. `batch` returns the spec's answer for a whole batch
-run, or `none` where the specification does not fix the outcome.
+Executable SPECIFICATION of non-aggregate queries (properties C03 select level, C07, C08; joins enter only
+through `lineEnvs`, whose meaning is C05's), written from the property sentences:
+
+* C03: in input order, one row for every admitted input row (one per join partner) on which WHERE is true,
+  containing the projected expressions evaluated on that row alone; `*` = all columns in definition order;
+  names = alias, else column name, else p<i> (the lowering has already put them into `projections`).
+* C08: DISTINCT outputs a row exactly when no earlier output row has the same tuple of values
+  (`dedupFirst tupleSame`: first occurrences, order and content otherwise unchanged).
+* C07: LIMIT n outputs exactly the first n rows of that (`take n`); no input is consumed beyond the line that
+  produced the n-th row, none at all for n = 0.
+
+The row stream is kept grouped by input line ("blocks"), because the text printer separates the rows of one
+line's result table from what follows by an empty line when there are several; grouping never changes the rows
+or their order (`dedupBlocks_flatten`, `takeBlocks_flatten` in Lemmas/SelectList.lean).
+`batch` returns the spec's answer for a whole batch run, or `none` where the sentences do not fix the outcome
+(an evaluation error on some line, an unreadable line, a join that cannot be set up).
 -/
 namespace Sqlgrep.Spec.Select
 open Sqlgrep
 
-def batch (_O : Oracles) (_qy : Query) (_q : SelectStmt) (_joined : List FileLine) (_files : List (List FileLine)) :
-    Option (RunOut × String) := none
+/-! ### list vocabulary -/
+
+/-- first occurrences relative to a memory `seen` (most recent first): `x` survives iff nothing in `seen`
+and no earlier survivor is the same -/
+def dedupFrom {α : Type} (same : α → α → Bool) (seen : List α) : List α → List α
+  | [] => []
+  | x :: xs => if seen.any (same x) then dedupFrom same seen xs else x :: dedupFrom same (x :: seen) xs
+
+/-- each distinct element once, at its first occurrence -/
+def dedupFirst {α : Type} (same : α → α → Bool) (xs : List α) : List α := dedupFrom same [] xs
+
+/-- `dedupFrom` over a stream grouped into blocks, the grouping kept -/
+def dedupBlocks {α : Type} (same : α → α → Bool) (seen : List α) : List (List α) → List (List α)
+  | [] => []
+  | b :: bs =>
+    let kept := dedupFrom same seen b
+    kept :: dedupBlocks same (kept.reverse ++ seen) bs
+
+/-- `take n` over a stream grouped into blocks, the grouping kept (exhausted blocks stay as empty blocks) -/
+def takeBlocks {α : Type} : Nat → List (List α) → List (List α)
+  | _, [] => []
+  | n, b :: bs => b.take n :: takeBlocks (n - b.length) bs
+
+/-- number of leading blocks needed to obtain `n` elements: the length of the shortest prefix holding at least
+`n` elements (all blocks when there are fewer; 0 for `n = 0`) -/
+def consumed {α : Type} : Nat → List (List α) → Nat
+  | 0, _ => 0
+  | _, [] => 0
+  | n + 1, b :: bs => 1 + (if b.length ≥ n + 1 then 0 else consumed (n + 1 - b.length) bs)
+
+/-! ### rows of one line (C03) -/
+
+def outNames (q : SelectStmt) (keys : List String) : List String :=
+  if q.wildcard then keys else q.projections.map (·.1)
+
+def outExprs (q : SelectStmt) (keys : List String) : List Expr :=
+  if q.wildcard then keys.map Expr.column else q.projections.map (·.2)
+
+/-- the row of one environment: WHERE, then the projections, both evaluated on that environment alone -/
+def envRow (O : Oracles) (q : SelectStmt) (env : Env) (keys : List String) : Outcome (Option (List Value)) := do
+  let valid ← (match q.filter with
+    | some f => do
+      let v ← eval O env f
+      pure v.truthy
+    | none => pure true : Outcome Bool)
+  if valid then do
+    let vals ← evalList O env (outExprs q keys)
+    pure (some vals)
+  else pure none
+
+def envsRows (O : Oracles) (q : SelectStmt) : List (Env × List String) → Outcome (List (List Value))
+  | [] => .ok []
+  | (env, keys) :: rest => do
+    let r ← envRow O q env keys
+    let rs ← envsRows O q rest
+    pure (r.toList ++ rs)
+
+/-- candidate rows of one input line, before DISTINCT and LIMIT: none for a line that is not admitted, else one
+per environment of the line (the line itself, or one per join partner) on which WHERE is true -/
+def lineRows (O : Oracles) (qy : Query) (q : SelectStmt) (idx : JoinIndex) (l : Line) : Outcome (List (List Value)) :=
+  if !anyResult l.row then .ok []
+  else do
+    let envs ← lineEnvs qy idx true l
+    envsRows O q envs
+
+def linesRows (O : Oracles) (qy : Query) (q : SelectStmt) (idx : JoinIndex) : List Line → Outcome (List (List (List Value)))
+  | [] => .ok []
+  | l :: ls => do
+    let b ← lineRows O qy q idx l
+    let bs ← linesRows O qy q idx ls
+    pure (b :: bs)
+
+/-- the keys `*` expands to: the table's columns in definition order, then the joined table's (qualified when
+the name is taken) -/
+def queryKeys (qy : Query) : List String :=
+  match qy.join with
+  | none => qy.table.columns
+  | some j => qy.table.columns ++ j.joined.columns.map (fun n => if qy.table.columns.contains n then j.joined.name ++ "." ++ n else n)
+
+def columnsOf (qy : Query) (q : SelectStmt) : List String := outNames q (queryKeys qy)
+
+/-! ### the whole run -/
+
+/-- DISTINCT: first occurrences over the whole stream -/
+def applyDistinct (distinct : Bool) (blocks : List (List (List Value))) : List (List (List Value)) :=
+  if distinct then dedupBlocks tupleSame [] blocks else blocks
+
+/-- LIMIT: the first n rows of the stream -/
+def applyLimit (limit : Option Nat) (blocks : List (List (List Value))) : List (List (List Value)) :=
+  match limit with
+  | some n => takeBlocks n blocks
+  | none => blocks
+
+/-- lines consumed: all of them, or — with LIMIT n — those up to the one that produced the n-th row -/
+def linesConsumed (limit : Option Nat) (blocks : List (List (List Value))) : Nat :=
+  match limit with
+  | some n => consumed n blocks
+  | none => blocks.length
+
+/-- the row blocks the run outputs, given the candidate rows of every line -/
+def outBlocks (q : SelectStmt) (blocks : List (List (List Value))) : List (List (List Value)) :=
+  applyLimit q.limit (applyDistinct q.distinct blocks)
+
+/-- text records of one line's rows (an empty block prints nothing) -/
+def printBlock (columns : List String) (rows : List (List Value)) : List String :=
+  printResult { columns := columns, rows := rows } false
+
+def render (columns : List String) (blocks : List (List (List Value))) : List String :=
+  blocks.flatMap (printBlock columns)
+
+/-- the outcome of a run over `lines` whose candidate rows are `blocks` -/
+def runOf (qy : Query) (q : SelectStmt) (blocks : List (List (List Value))) : RunOut :=
+  { printed := render (columnsOf qy q) (outBlocks q blocks),
+    totalLines := linesConsumed q.limit (applyDistinct q.distinct blocks) }
+
+def joinIndexOf (qy : Query) (joined : List FileLine) : Outcome JoinIndex :=
+  match qy.join with
+  | some j => setupJoin qy.table j (loadJoinFile j joined)
+  | none => .ok []
+
+/-- candidate rows of every line of every file, when the join can be set up, every line is readable and every
+expression has a value on every admitted line -/
+def batchBlocks (O : Oracles) (qy : Query) (q : SelectStmt) (joined : List FileLine) (files : List (List FileLine)) :
+    Option (List (List (List Value))) :=
+  match joinIndexOf qy joined with
+  | .ok idx =>
+    if files.flatten.all (·.readable) then
+      match linesRows O qy q idx (files.flatten.map (·.line)) with
+      | .ok blocks => some blocks
+      | _ => none
+    else none
+  | _ => none
+
+def classOf (qy : Query) (q : SelectStmt) : String :=
+  "select-spec" ++ (if q.distinct then ":distinct" else "") ++ (if q.limit.isSome then ":limit" else "") ++
+    (if qy.join.isSome then ":join" else "")
+
+def batch (O : Oracles) (qy : Query) (q : SelectStmt) (joined : List FileLine) (files : List (List FileLine)) :
+    Option (RunOut × String) :=
+  (batchBlocks O qy q joined files).map (fun blocks => (runOf qy q blocks, classOf qy q))
 
 end Sqlgrep.Spec.Select
